@@ -89,6 +89,9 @@ type WorldOpts struct {
 	PBindFails    float64 `json:"pBindFails"`
 	// a terminating pod disappears after a number of cycles drawn from [0,MaxTerminateCycles]
 	MaxTerminateCycles int `json:"maxTerminateCycles"`
+	// PPodUpdateLags: after a successful bind the BindRequest shows Succeeded one step before the pod shows its
+	// node (the scheduler watches pods and BindRequests through separate informers)
+	PPodUpdateLags float64 `json:"pPodUpdateLags,omitempty"`
 	// Closed: evicted pods are re-created as pending (C15)
 	Closed bool `json:"closed,omitempty"`
 	// UseRealBinder: drive BindRequests through the real binder reconciler
